@@ -180,8 +180,71 @@ def run(M, rec, tier, seed, k, n):
                 if "SX" in d and "MX" in d:
                     rec.count("sx_mx_pairs")
                     compare(rec, f"SX vs MX compact={compact}", desc, d["SX"], d["MX"], {"desc": desc, "pars": pars})
+        user_link_models(M, rec, rng, g, 40 if tier == "quick" else 400)
     finally:
         pass
+
+
+def user_link_models(M, rec, rng, g, n_nets):
+    """A user brings another fundamental diagram (README "Extensions": engines are meant to be derived): one links engine per
+    family overriding the public primitive `Veq` with the same law (Underwood), plugged in through the `links` property of an
+    Engine subclass.  The compiled function of the CasADi family equals the step of the NumPy family - also on speed-limited
+    links, whatever law those use, as long as both families use the same."""
+    import casadi as cs
+
+    import sym_metanet.engines.casadi as EC
+    import sym_metanet.engines.numpy as EN
+    from vf import compiled as C, drive
+
+    class LinksNP(EN.LinksEngine):
+        @staticmethod
+        def Veq(rho, v_free, rho_crit, a):
+            return v_free * np.exp(-rho / rho_crit)
+
+    class UserNP(EN.Engine):
+        @property
+        def links(self):
+            return LinksNP
+
+    class LinksCS(EC.LinksEngine):
+        @staticmethod
+        def Veq(rho, v_free, rho_crit, a):
+            return v_free * cs.exp(-rho / rho_crit)
+
+    class UserCS(EC.Engine):
+        @property
+        def links(self):
+            return LinksCS
+
+    for it in range(n_nets):
+        desc = g.network(rng.choice(("chain", "ramp", "random", "merge", "bifurcation")), force=(("vsl",) if it % 3 else ()))[1]
+        if any(o.get("user") or o.get("user_cap_flow") is not None for o in desc["origins"]) or any(l.get("user_cap") is not None or l.get("user_reorder") for l in desc["links"]):
+            continue
+        pars = g.pars()
+        kw = drive.step_pars(pars)
+        st = ("SX", "MX")[it % 2]
+        compact = rng.choice((0, 1, 2))
+        _, vals = g.values(desc, "interior", allow_inf=False)
+        if R.is_singular(desc, vals):
+            continue
+        try:
+            built = D.build(M, desc)
+            eng = UserCS(st)
+            built.net.step(engine=eng, **kw)
+            F = eng.to_function(built.net, compact=compact, **kw)
+            xn, _q, _qo = C.call_positional(F, desc, C.live_order(built), vals, compact, False)
+            twin = D.build(M, desc)
+            twin.net.step(init_conditions=drive.np_init(twin, vals, "vec1"), engine=UserNP(), **kw)
+            nxt = drive.read_next(twin)
+        except Exception as e:
+            rec.violation(f"{PROP}:{st}: a network cannot be stepped / compiled with a user-defined link model ({type(e).__name__})",
+                          {"desc": desc, "exception": repr(e)[:300]})
+            continue
+        rec.count("user_link_model_comparisons")
+        if any(l.get("vsl") for l in desc["links"]):
+            rec.count("user_link_model_comparisons_with_speed_limited_links")
+        compare(rec, f"{st} compact={compact} with a user-defined link model in both engine families vs NumPy", desc, xn, nxt,
+                {"desc": desc, "pars": pars, "vals": vals, "sym_type": st, "compact": compact}, magnitudes(desc, vals, pars))
 
 
 def finish(M, rec, write=True):
